@@ -94,3 +94,100 @@ func verifHarness_C05_arbitrary(L int, mode int, inj int) {
 	verifAssert(done, "C05/A/exhausted-within-n+1-calls")
 	verifReach("C05/A")
 }
+
+// arbitrary frame of kind 0 (v1), 1 (v2) or 2 (signed v2) with an n-byte payload: its spec bytes
+func verifAnyFrameWire(kind int, n int) []byte {
+	seq, sys, comp, compat := verifNondetU8(), verifNondetU8(), verifNondetU8(), verifNondetU8()
+	id := verifNondetU32()
+	ck := verifNondetU16()
+	payload := verifNondetBytes(n)
+	switch kind {
+	case 0:
+		verifAssume(id <= 0xFF)
+		return verifSpecV1(seq, sys, comp, byte(id), payload, ck)
+	case 1:
+		verifAssume(id < 1<<24)
+		return verifSpecV2(0, compat, seq, sys, comp, id, payload, ck, false, 0, 0, nil)
+	default:
+		verifAssume(id < 1<<24)
+		ts := verifNondetU64()
+		verifAssume(ts < 1<<48)
+		return verifSpecV2(1, compat, seq, sys, comp, id, payload, ck, true, verifNondetU8(), ts, verifNondetBytes(6))
+	}
+}
+
+func verifNoise(n int) []byte {
+	b := verifNondetBytes(n)
+	for i := 0; i < n; i++ {
+		verifAssume(b[i] != V1MagicByte && b[i] != V2MagicByte)
+	}
+	return b
+}
+
+// B: a stream made of valid frames separated by bytes that are not frame markers yields every frame, in order,
+// each noise byte as one parse error, whatever the segmentation.
+// layout: nb noise bytes, frame (k1,n1), nm noise bytes, frame (k2,n2), na noise bytes.
+// mode 0: 1-byte chunks; 1/2: that many arbitrary cut points.
+func verifHarness_C05_structured(k1 int, n1 int, k2 int, n2 int, noise int, mode int) {
+	nb, nm, na := noise/100, (noise/10)%10, noise%10
+	var stream []byte
+	var kinds []int // expected result kinds in order: 1 parse error, 0 frame
+	var wires [][]byte
+	add := func(b []byte, frame bool) {
+		if frame {
+			kinds = append(kinds, 0)
+			wires = append(wires, b)
+		} else {
+			for range b {
+				kinds = append(kinds, 1)
+				wires = append(wires, nil)
+			}
+		}
+		stream = append(stream, b...)
+	}
+	add(verifNoise(nb), false)
+	add(verifAnyFrameWire(k1, n1), true)
+	add(verifNoise(nm), false)
+	add(verifAnyFrameWire(k2, n2), true)
+	add(verifNoise(na), false)
+	L := len(stream)
+	c1 := &verifChunkReader{data: stream}
+	c2 := &verifChunkReader{data: stream}
+	if mode == 0 {
+		c2.chunks = make([]int, L)
+		for i := range c2.chunks {
+			c2.chunks[i] = 1
+		}
+	} else {
+		rem := L
+		for i := 0; i < mode && rem > 1; i++ {
+			a := verifNondetRange(1, rem-1)
+			c2.chunks = append(c2.chunks, a)
+			rem -= a
+		}
+	}
+	r1 := &Reader{ByteReader: c1}
+	r2 := &Reader{ByteReader: c2}
+	verifAssert(r1.Initialize() == nil && r2.Initialize() == nil, "C05/B/init")
+	for i := 0; i < len(kinds); i++ {
+		f1, e1 := r1.Read()
+		f2, e2 := r2.Read()
+		if kinds[i] == 1 {
+			verifAssert(e1 != nil && verifIsReadError(e1) && f1 == nil, "C05/B/noise-byte-is-one-parse-error")
+			verifAssert(e2 != nil && verifIsReadError(e2) && f2 == nil, "C05/B/noise-byte-is-one-parse-error-any-split")
+			continue
+		}
+		verifAssert(e1 == nil && f1 != nil, "C05/B/valid-frame-returned")
+		verifAssert(e2 == nil && f2 != nil, "C05/B/valid-frame-returned-any-split")
+		if e1 == nil && f1 != nil {
+			verifAssert(verifEqBytes(verifWireOf(f1), wires[i]), "C05/B/frame-equals-its-bytes")
+		}
+		if e2 == nil && f2 != nil {
+			verifAssert(verifEqBytes(verifWireOf(f2), wires[i]), "C05/B/frame-equals-its-bytes-any-split")
+		}
+	}
+	_, e1 := r1.Read()
+	_, e2 := r2.Read()
+	verifAssert(e1 == io.EOF && e2 == io.EOF, "C05/B/then-end-of-stream")
+	verifReach("C05/B")
+}
